@@ -94,12 +94,13 @@ def matrix(tier):
                ["rec", 1, "generation", None, {"entity": {"name": n("shared")}, "activity": {"name": n("act")}}, [[n("k"), {"k": "str", "v": "in b1"}]], "factory"],
                ["rec", 2, "entity", n("shared"), {}, [[n("k"), {"k": "str", "v": "declared in b2"}]], "factory"],
                ["rec", 2, "usage", None, {"activity": {"name": n("act")}, "entity": {"name": n("shared")}}, [[n("k"), {"k": "str", "v": "in b2"}]], "factory"],
+               ["rec", 1, "activity", n("act"), {}, [], "factory"], ["rec", 2, "activity", n("act"), {}, [], "factory"],
                ["rec", 0, "entity", n("shared"), {}, [[n("k"), {"k": "str", "v": "declared in the document"}]], "factory"],
                ["rec", 0, "activity", n("act"), {}, [], "factory"],
                ["rec", 0, "start", None, {"activity": {"name": n("act")}, "trigger": {"name": n("shared")}, "starter": {"name": n("act2")}}, [[n("r"), {"k": "int", "v": 1}]], "factory"]]
         yield {"profile": "dot", "ops": ops, "opts": oi, "cell": ["scopes", oi]}
         # the same without the document-level declarations (the sibling bundle's element is then the only declaration)
-        yield {"profile": "dot", "ops": ops[:6], "opts": oi, "cell": ["scopes-bundles-only", oi]}
+        yield {"profile": "dot", "ops": ops[:8], "opts": oi, "cell": ["scopes-bundles-only", oi]}
 
 
 def _it(b, **kw):
